@@ -7,7 +7,7 @@ dequeued operation (`request`, `unregister`).
 * The application data base is a list of items in strictly ascending key order; the
   `ForEachItem` contract is "ascending from the first key ≥ start, `onKey` before and
   `onAppended` after each appended item" (`scan`).
-* Go maps are association lists (`get`/`put`/`del`).
+* Go maps are association lists (`lget`/`lput`/`ldel`).
 * Every comparison the code makes is taken from `Gen.Seeder` (regenerated from the source).
 * `stepRequestOld` is the reader loop as it was before the repair of DESIGN §7-D4; it is only
   used by the negative witnesses in `Props/C17.lean`.
@@ -52,16 +52,16 @@ deriving Repr
 
 /-! ### association lists -/
 
-def get {κ α} [DecidableEq κ] (m : List (κ × α)) (k : κ) : Option α :=
+def lget {κ α} [DecidableEq κ] (m : List (κ × α)) (k : κ) : Option α :=
   match m with
   | [] => none
-  | (k', v) :: rest => if k' = k then some v else get rest k
+  | (k', v) :: rest => if k' = k then some v else lget rest k
 
-def del {κ α} [DecidableEq κ] (m : List (κ × α)) (k : κ) : List (κ × α) :=
+def ldel {κ α} [DecidableEq κ] (m : List (κ × α)) (k : κ) : List (κ × α) :=
   m.filter (fun p => !decide (p.1 = k))
 
-def put {κ α} [DecidableEq κ] (m : List (κ × α)) (k : κ) (v : α) : List (κ × α) :=
-  (k, v) :: del m k
+def lput {κ α} [DecidableEq κ] (m : List (κ × α)) (k : κ) (v : α) : List (κ × α) :=
+  (k, v) :: ldel m k
 
 /-! ### payloads -/
 
@@ -122,7 +122,7 @@ inductive Out where
   | none
 deriving DecidableEq, Repr
 
-def idsOf (st : St) (peer : Nat) : List Nat := (get st.peerSessions peer).getD []
+def idsOf (st : St) (peer : Nat) : List Nat := (lget st.peerSessions peer).getD []
 
 /-- `NotifyRequestReceived`: refuse or clamp -/
 def sanitize (cfg : Cfg) (r : Req) : Option Req :=
@@ -134,16 +134,16 @@ def sanitize (cfg : Cfg) (r : Req) : Option Req :=
 
 /-- session lookup / creation (`if !ok { … }`), repaired placement: pruning happens here only -/
 def openSession (st : St) (r : Req) : St × Sess :=
-  match get st.sessions (r.sid, r.peer) with
+  match lget st.sessions (r.sid, r.peer) with
   | some s => (st, s)
   | none =>
     let ids := idsOf st r.peer
     let pruned := Gen.Seeder.pruneCond ids.length
     let ids' := if pruned then ids.tail else ids
-    let sessions' := if pruned then del st.sessions (ids.headD 0, r.peer) else st.sessions
+    let sessions' := if pruned then ldel st.sessions (ids.headD 0, r.peer) else st.sessions
     let s : Sess := { orig := r.start, next := r.start, stop := r.stop, done := false }
-    ({ peerSessions := put st.peerSessions r.peer (ids' ++ [r.sid]),
-       sessions := put sessions' (r.sid, r.peer) s }, s)
+    ({ peerSessions := lput st.peerSessions r.peer (ids' ++ [r.sid]),
+       sessions := lput sessions' (r.sid, r.peer) s }, s)
 
 /-- `case op := <-s.notifyReceivedRequest` (after sanitizing) -/
 def stepRequest (db : List Item) (st : St) (r : Req) : St × Out :=
@@ -151,12 +151,12 @@ def stepRequest (db : List Item) (st : St) (r : Req) : St × Out :=
   if Gen.Seeder.selectorMismatch (cmp o.2.orig r.start) then (o.1, .mismatch)
   else
     let c := chunks db r o.2
-    ({ o.1 with sessions := put o.1.sessions (r.sid, r.peer) c.1 }, .responses c.2)
+    ({ o.1 with sessions := lput o.1.sessions (r.sid, r.peer) c.1 }, .responses c.2)
 
 /-- `case peerID := <-s.notifyUnregisteredPeer` -/
 def stepUnregister (st : St) (peer : Nat) : St :=
-  { peerSessions := del st.peerSessions peer,
-    sessions := (idsOf st peer).foldl (fun m sid => del m (sid, peer)) st.sessions }
+  { peerSessions := ldel st.peerSessions peer,
+    sessions := (idsOf st peer).foldl (fun m sid => ldel m (sid, peer)) st.sessions }
 
 inductive Op where
   | request (r : Req)
@@ -199,18 +199,18 @@ def stepRequestOld (db : List Item) (st : St) (r : Req) : St × Out :=
   let ids := idsOf st r.peer
   let pruned := Gen.Seeder.pruneCond ids.length
   let ids' := if pruned then ids.tail else ids
-  let sessions' := if pruned then del st.sessions (ids.headD 0, r.peer) else st.sessions
+  let sessions' := if pruned then ldel st.sessions (ids.headD 0, r.peer) else st.sessions
   let o : St × Sess :=
-    match get sessions' (r.sid, r.peer) with
+    match lget sessions' (r.sid, r.peer) with
     | some s => ({ st with sessions := sessions' }, s)
     | none =>
       -- the id is registered, the session itself is stored only by the chunk loop
-      ({ peerSessions := put st.peerSessions r.peer (ids' ++ [r.sid]), sessions := sessions' },
+      ({ peerSessions := lput st.peerSessions r.peer (ids' ++ [r.sid]), sessions := sessions' },
        { orig := r.start, next := r.start, stop := r.stop, done := false })
   if Gen.Seeder.selectorMismatch (cmp o.2.orig r.start) then (o.1, .mismatch)
   else
     let c := chunks db r o.2
     if c.2.isEmpty then (o.1, .responses [])
-    else ({ o.1 with sessions := put o.1.sessions (r.sid, r.peer) c.1 }, .responses c.2)
+    else ({ o.1 with sessions := lput o.1.sessions (r.sid, r.peer) c.1 }, .responses c.2)
 
 end Model.Seeder
